@@ -2,6 +2,7 @@
 C12 — Runtime lifecycle: exclusive accept, shutdown always completes, restart possible.
 -/
 import CobaldVerif.Lemmas.RuntimeProgress
+import CobaldVerif.Generated.Src
 
 namespace Cobald.Props.C12
 open Cobald Cobald.Runtime
@@ -61,6 +62,12 @@ theorem shutdown_returns (s : St) (r : Res) (hc : s.gather = .completed) (h : (s
     · rename_i hr; simpa using hr
     · simp at h
   · simp at h
+
+/-- the `exclusive` guard as it stands in the source of `runners/guard.py` (checked on the syntax
+tree on every run, `Generated/Src.lean`): the call is made iff a non-blocking acquire succeeds, the
+guard is released in the `finally` of exactly that call, the other branch only raises RuntimeError.
+That is what `acceptBegin` / `acceptReject` / the `guard := none` of every `endRun` model. -/
+theorem gen_guard_shape : Gen.guardShape = true := by decide
 
 /-- **shutdown always completes**: after a stop request, once the coroutine payloads have unwound
 (they can: `C02.cancellation_deliverable`), at most 8 closing steps end the run call - by a normal
